@@ -603,6 +603,12 @@ _STATIC_SEEDS = [
     ("infinite-after-branch", "while while-true if return", False,
      "def f(a, b):\n    if a:\n        return 1\n    while 1:\n        b += 1\n"),
     ("yield-from", "gen yield-from", False, "def f(a, b):\n    x = yield from a\n    return x\n"),
+    # a SEND loop (await / yield from) BELOW a branch and another branch after it: the SEND and YIELD_VALUE
+    # blocks are mutually control dependent through value-less edges
+    ("await-below-branch", "async if return", False,
+     "async def f(a, b):\n    if a:\n        await a()\n    if b:\n        return 1\n    return 0\n"),
+    ("yield-from-below-branch", "gen yield-from if return", False,
+     "def f(a, b):\n    if a:\n        yield from a\n    if b:\n        return 1\n    return 0\n"),
     ("async-await", "async", False, "async def f(a, b):\n    x = await a\n    return x\n"),
     ("async-for-with", "async for with", False,
      "async def f(a, b):\n    async with a as w:\n        async for v in b:\n            if v:\n                break\n    return w\n"),
